@@ -61,6 +61,7 @@ func (w *waiter) poll() bool {
 
 type scenario struct {
 	Mode    string `json:"mode"`
+	Locked  bool   `json:"agent_locked_first"`
 	Waiters []int  `json:"waiter_codes"`
 	Late    []int  `json:"late_waiter_codes"`
 	Pokes   []int  `json:"poke_codes"`
@@ -200,6 +201,19 @@ func run(r *ev.Run, c *ev.Case, sc scenario) {
 		return
 	}
 	defer g.close()
+	if sc.Locked {
+		// waiting does not depend on the agent's lock state
+		var lerr error
+		if g.direct != nil {
+			lerr = g.direct.Lock([]byte("pw"))
+		} else {
+			lerr = g.srv.Lock([]byte("pw"))
+		}
+		if lerr != nil {
+			r.Inconclusive("could not lock the agent: " + lerr.Error())
+			return
+		}
+	}
 	base := parked() // waiters parked by other scenarios do not exist: scenarios run one at a time
 	if base != 0 {
 		r.Inconclusive(fmt.Sprintf("%d goroutines already parked before the scenario", base))
@@ -369,7 +383,7 @@ func run(r *ev.Run, c *ev.Case, sc scenario) {
 
 func main() {
 	ev.MainIsolated("C20", "exploration", 60*time.Minute, func(r *ev.Run) {
-		r.Rule("scenarios on a real remote-mode yubiagent server (waiters are real clients calling Wait on their own connections served by ServeAgent; pokes are request frames whose first byte is the code, on fresh connections) and directly on (*shimagent.Server).Wait/Broadcast: every code 0..255 as wait code; 1..8 waiters on one code and spread over 2..4 codes; pokes of matching and non-matching codes (including codes >= 40 and codes congruent modulo 40) in seeded orders, all orders for up to 3 codes; late waiters registering between two pokes. The goroutine table is the monitor: after each poke's reply the number of goroutines parked in sync.Cond.Wait below (*Server).Wait must equal the number of waiters on other codes, the released waiters must all return success, no other waiter may return. Race-instrumented. distinct_nontrivial = distinct scenarios that ran to the end")
+		r.Rule("scenarios on a real remote-mode yubiagent server (waiters are real clients calling Wait on their own connections served by ServeAgent; pokes are request frames whose first byte is the code, on fresh connections) and directly on (*shimagent.Server).Wait/Broadcast: every code 0..255 as wait code; 1..8 waiters on one code and spread over 2..4 codes; pokes of matching and non-matching codes (including codes >= 40 and codes congruent modulo 40) in seeded orders, all orders for up to 3 codes; late waiters registering between two pokes; a quarter of the scenarios lock the agent first (waiting does not depend on the lock state). The goroutine table is the monitor: after each poke's reply the number of goroutines parked in sync.Cond.Wait below (*Server).Wait must equal the number of waiters on other codes, the released waiters must all return success, no other waiter may return. Race-instrumented. distinct_nontrivial = distinct scenarios that ran to the end")
 		r.Assume("'eventually released' is bounded progress: the watchdog per step is VERIF_OP_TIMEOUT_S (60 s)", "a waiter is registered exactly when its goroutine is counted as parked (cond.Wait enqueues before releasing the lock that Broadcast takes)")
 		idx := 0
 		one := func(fam string, sc scenario) {
@@ -400,7 +414,7 @@ func main() {
 		for si, set := range sets {
 			for _, pm := range perms {
 				for _, mode := range []string{"served", "direct"} {
-					one("perm", scenario{Mode: mode, Waiters: []int{set[0], set[1], set[1], set[2]}, Pokes: []int{set[pm[0]], set[pm[1]], set[pm[2]]}})
+					one("perm", scenario{Mode: mode, Locked: (si+pm[0])%3 == 0, Waiters: []int{set[0], set[1], set[1], set[2]}, Pokes: []int{set[pm[0]], set[pm[1]], set[pm[2]]}})
 				}
 			}
 			_ = si
@@ -419,7 +433,7 @@ func main() {
 					codes[k] = rng.Intn(40)
 				}
 			}
-			sc := scenario{Mode: []string{"served", "direct"}[rng.Intn(2)]}
+			sc := scenario{Mode: []string{"served", "direct"}[rng.Intn(2)], Locked: rng.Intn(4) == 0}
 			for k := 1 + rng.Intn(8); k > 0; k-- {
 				sc.Waiters = append(sc.Waiters, codes[rng.Intn(ncodes)])
 			}
